@@ -34,7 +34,7 @@ ASSUMPTIONS = {"*": [
     "(or of PartialParse._filter_rules outside of it); 'expanding a partial parse' as the calls "
     "of PartialParse.apply_rule on one object",
 ]}
-EXPECTED_FAULTS = {"C13": ["deadline", "stall"]}
+EXPECTED_FAULTS = {"C13": ["deadline", "stall", "consumer_stall"]}
 DETERMINISM_SAMPLE = {"quick": 4, "thorough": 12}
 EXHAUSTIVE = {}
 BIG = 1e30
@@ -131,7 +131,7 @@ class Instrument:
         return False
 
 
-def _run(lib, case, timeout, entry, deltas=None, stall_at=None, stall_by=0.0):
+def _run(lib, case, timeout, entry, deltas=None, stall_at=None, stall_by=0.0, cstall=None):
     """One execution of the library under the virtual clock.
     Returns (stream or result, log, exception-or-None, clock)."""
     log = []
@@ -150,6 +150,11 @@ def _run(lib, case, timeout, entry, deltas=None, stall_at=None, stall_by=0.0):
                 for c in lib["ctparse"].ctparse_gen(case["text"], **kw):
                     out.append(core.cand_key(c))
                     log.append(("yield",))
+                    if cstall is not None and len(out) == cstall + 1:
+                        # a slow consumer: the caller sits on this candidate for a long
+                        # (virtual) time before asking for the next one
+                        log.append(("consumer-stall", clock.n - 1))
+                        clock.now += 1e12
             else:
                 r = lib["ctparse"].ctparse(case["text"], **kw)
                 out = core.cand_key(r)
@@ -228,7 +233,7 @@ def execute(case):
     lib = core.use_repo()
     V = []
     keys = []
-    faults = {"deadline": 0, "stall": 0}
+    faults = {"deadline": 0, "stall": 0, "consumer_stall": 0}
     probes = {"expired_in_enumeration": 0, "expired_in_initial_stack": 0,
               "expired_in_production_loop": 0, "stream_cut_short": 0,
               "empty_prefix": 0, "result_without_resolution": 0,
@@ -417,6 +422,18 @@ def execute(case):
             judge_call("stall", k, S, timeout, stall_at=k, stall_by=1e12)
             n_eval += 1
 
+    # -- a slow consumer: the deadline passes while the caller holds the k-th candidate
+    for k in case.get("cstalls", []):
+        if k >= len(S_inf):
+            continue
+        timeout = 1e6
+        S, log, exc_, _ = _run(lib, case, timeout, "gen", deltas, cstall=k)
+        n_eval += 1
+        faults["consumer_stall"] = faults.get("consumer_stall", 0) + 1
+        at = next((ev[1] for ev in log if ev[0] == "consumer-stall"), None)
+        judge("consumer-stall", k, S, log, exc_, timeout, stall_at=at, stall_by=1e12)
+        obs.append(["cstall", k, None if S is None else len(S)])
+
     return {
         "viol": V,
         "digest": core.digest(obs),
@@ -513,11 +530,13 @@ def plan(prop, tier, seed):
             ks.update(rng.sample(pool, min(sample_n, len(pool))))
             ks = sorted(ks)
         stalls = sorted(rng.sample(range(R), min(R, 6 if quick else 40)))
+        base["cstalls"] = sorted(set(rng.randrange(12) for _ in range(3 if quick else 8)))
         first = True
         for i in range(0, max(1, len(ks)), chunk):
             c = dict(base)
             c["expiries"] = ks[i: i + chunk]
             c["stalls"] = stalls if first else []
+            c["cstalls"] = base["cstalls"] if first else []
             first = False
             cases.append(c)
     return cases
@@ -526,12 +545,19 @@ def plan(prop, tier, seed):
 def shrink_moves(case):
     """Simpler variants: fewer fault points, shorter text, default options."""
     ex, st = case.get("expiries", []), case.get("stalls", [])
+    cs = case.get("cstalls", [])
+    if cs and (ex or st):
+        yield dict(case, expiries=[], stalls=[])
+    if cs:
+        yield dict(case, cstalls=[])
+        for k in cs:
+            yield dict(case, expiries=[], stalls=[], cstalls=[k])
     if len(ex) + len(st) > 1:
         for k in ex:
-            c = dict(case, expiries=[k], stalls=[])
+            c = dict(case, expiries=[k], stalls=[], cstalls=[])
             yield c
         for k in st:
-            c = dict(case, expiries=[], stalls=[k])
+            c = dict(case, expiries=[], stalls=[k], cstalls=[])
             yield c
     if ex or st:
         yield dict(case, expiries=[], stalls=[])
